@@ -310,15 +310,17 @@ def apply(fc):
                 ensures=['pas_C08(data, r)', 'pas_C07(data, r)', 'pas_C19(data, r)', 'pas_KFD4(data, r)'],
                 attrs=['#[verifier::spinoff_prover]', '#[verifier::rlimit(400)]'])
     fc.body_prefix('parse_ais_sentence', '    proof { suf_unfold(data); }')
-    fc.replace_in_re('parse_ais_sentence', r'\|(\w+)\| \*\1 < (\w+)', r'|\1: &u8| -> (b: bool) ensures b == (*\1 < \2), { *\1 < \2 }')
+    # the comparison operator and the bound are captured from the code (shape only): that the bound is `< 6` is said by pas_C08 alone
+    # (C08-w08-m2, `*val <= 6`, lost this anchor while it spelled `<` out)
+    fc.replace_in_re('parse_ais_sentence', r'\|(\w+)\| \*\1 (<=|<|>=|>|==|!=) (\w+)', r'|\1: &u8| -> (b: bool) ensures b == (*\1 \2 \3), { *\1 \2 \3 }')
     fc.contract('parse_nmea_sentence', requires=['line_small(data@.len() as int)'],
                 ensures=['nmea_C08(data@, r)', 'nmea_C02(data@, r)', 'nmea_C07(data@, r)', 'nmea_C19(data@, r)', 'nmea_KFD4(data@, r)'])
     fc.body_prefix('parse_nmea_sentence', '    proof { suf_self(data); }')
     # the hint names the cursor that is passed to `terminated(..)(cursor)`, read from the call itself (the let may bind other names)
     fc.insert_re('parse_nmea_sentence', r'let \(\w+, \w+\) = terminated\((?:[^()]|\([^()]*\))*\)\((\w+)\)', r'proof { suf_unfold(\1); }\n    ')
-    if not fc.replace_in_re('parse_nmea_sentence', r'\|(\w+)\| \1 <= &(\w+)', r'|\1: &u32| -> (b: bool) ensures b == (*\1 <= \2), { \1 <= &\2 }'):
+    if not fc.replace_in_re('parse_nmea_sentence', r'\|(\w+)\| \1 (<=|<|>=|>|==|!=) &(\w+)', r'|\1: &u32| -> (b: bool) ensures b == (*\1 \2 \3), { \1 \2 &\3 }'):
         fc.lost.pop()
-        fc.replace_in_re('parse_nmea_sentence', r'\|(\w+)\| \*\1 <= (\w+)', r'|\1: &u32| -> (b: bool) ensures b == (*\1 <= \2), { *\1 <= \2 }')
+        fc.replace_in_re('parse_nmea_sentence', r'\|(\w+)\| \*\1 (<=|<|>=|>|==|!=) (\w+)', r'|\1: &u32| -> (b: bool) ensures b == (*\1 \2 \3), { *\1 \2 \3 }')
     for nm, tg in [('lemma_neutral', ['C17', 'C05']), ('lemma_frag_first', ['C05']), ('lemma_frag_next', ['C05']), ('lemma_frag_last', ['C05']),
                    ('lemma_accept_continues', ['C06']), ('lemma_closed', ['C06']), ('lemma_reassembly_prefix', ['C05']), ('lemma_reassembly', ['C05']),
                    ('lemma_erase', ['C17'])]:
